@@ -239,6 +239,74 @@ def gen_tree_case(rng, maxd):
     return {"op": "tree_get", "target": t, "path": p}
 
 
+# --- wide and wide x deep shapes: the depth guard must count nesting levels, not members
+def gen_wide_tree_case(rng, maxd):
+    """wide objects (about maxd..3*maxd members) merged with overlays that touch late members, and k siblings before a
+    nested object repeated over d levels with k*d around and beyond maxd (true nesting stays below maxd)"""
+    if rng.random() < 0.5:
+        n = rng.randrange(max(2, maxd - 6), 3 * maxd + 10)
+        target = {f"k{i:03d}": ({"a": i, "t": {"u": i}} if rng.random() < 0.8 else gen_scalar(rng)) for i in range(n)}
+        keys = list(target.keys())
+        lo = rng.choice([0, 0, maxd // 2, maxd - 3])
+        overlay = {}
+        for i in range(lo, n):
+            r = rng.random()
+            if r < 0.55:
+                overlay[keys[i]] = {"b": i} if rng.random() < 0.7 else {"t": {"v": i}, "a": None}
+            elif r < 0.8:
+                overlay[f"f{i:03d}"] = rng.choice([1, "s", None, [i], {"z": i}])
+        if rng.random() < 0.3:
+            items = list(overlay.items())
+            rng.shuffle(items)
+            overlay = dict(items)
+        return {"op": "tree_merge", "target": target, "overlay": overlay, "depth": 0, "shape": "wide"}
+    d = rng.randrange(2, min(28, maxd - 2))
+    k = max(1, rng.choice([maxd // d - 1, maxd // d, maxd // d + 1, 2 * maxd // d, rng.randrange(1, 12)]))
+    t, o = {"a": 1, "leaf": {"x": 0}}, {"b": 2, "leaf": {"y": 1}}
+    for lvl in range(d):
+        before = rng.random() < 0.85          # fillers before the nested member (what the miscount needs) or after it
+        fill = {f"s{j}": rng.choice([j, "v", None, {"w": j}]) for j in range(k)}
+        o = dict(fill, n=o) if before else dict({"n": o}, **fill)
+        t = {"keep": lvl, "n": t, "s0": {"old": lvl}}
+    return {"op": "tree_merge", "target": t, "overlay": o, "depth": 0, "shape": "wide_deep"}
+
+
+def gen_wide_settings_case(rng, maxd):
+    """the same shapes through the public API, in the free-form members of builder.claim_generator_info"""
+    def wrap(x):
+        return {"builder": {"claim_generator_info": x}}
+    if rng.random() < 0.6:
+        n = rng.randrange(maxd - 6, 3 * maxd)
+        first = {"name": "gen"}
+        first.update({f"k{i:03d}": {"a": i, "t": {"u": i}} for i in range(n)})
+        lo = rng.choice([0, maxd // 2, maxd - 8])
+        second = {}
+        for i in range(lo, n):
+            r = rng.random()
+            if r < 0.6:
+                second[f"k{i:03d}"] = {"b": i} if rng.random() < 0.7 else {"t": {"v": i}}
+            elif r < 0.8:
+                second[f"f{i:03d}"] = rng.choice([1, "s", [i], {"z": i}])
+    else:
+        d = rng.randrange(2, 24)
+        k = max(1, rng.choice([maxd // d - 1, maxd // d, maxd // d + 1, 2 * maxd // d]))
+        t, o = {"a": 1, "leaf": {"x": 0}}, {"b": 2, "leaf": {"y": 1}}
+        for lvl in range(d):
+            o = dict({f"s{j}": rng.choice([j, "v", {"w": j}]) for j in range(k)}, n=o)
+            t = {"keep": lvl, "n": t, "s0": {"old": lvl}}
+        first, second = {"name": "gen", "chain": t}, {"chain": o}
+    d1, d2 = wrap(first), wrap(second)
+    steps = [{"k": "with_json", "format": "json", "text": json.dumps(d1), "doc": d1}]
+    kind = rng.choice(["with_json", "update", "with_toml", "pair"])
+    if kind == "pair":
+        steps.append({"k": "pair", "text": json.dumps(d2), "toml": toml_doc(d2, rng), "doc": d2})
+    elif kind == "with_toml":
+        steps.append({"k": "with_toml", "format": "toml", "text": toml_doc(d2, rng), "doc": d2})
+    else:
+        steps.append({"k": kind, "format": "json", "text": json.dumps(d2), "doc": d2})
+    return {"op": "settings", "steps": steps, "shape": "wide"}
+
+
 def tree_expr(c):
     if c["op"] == "tree_merge":
         return f"merge MERGE_MAX_DEPTH {c['depth']} {cjson(c['target'])} {cjson(c['overlay'])}"
@@ -467,12 +535,17 @@ def trunc(x, n=300):
 
 def eval_trees(ctx, cases, stats, with_model=True):
     impl = common.run_harness("c25", cases)
-    model = common.coq_eval("C25", IMPORTS, [tree_expr(c) for c in cases], shard_size=150) if with_model else None
+    # the wide shapes are expensive to spell as Coq terms: the model runs on a sample of them, the oracle on all
+    mcases = [c for c in cases if not c.get("nomodel")] if with_model else []
+    mlist = common.coq_eval("C25", IMPORTS, [tree_expr(c) for c in mcases], shard_size=60) if mcases else []
+    model = {c["id"]: mlist[j] for j, c in enumerate(mcases)}
     maxd = ctx.facts["MERGE_MAX_DEPTH"] if getattr(ctx, "facts", None) else 64
     for i, c in enumerate(cases):
         r = impl[c["id"]]
         op = c["op"]
         stats["tree_ops"][op] = stats["tree_ops"].get(op, 0) + 1
+        if c.get("shape"):
+            stats["shapes"]["tree_" + c["shape"]] = stats["shapes"].get("tree_" + c["shape"], 0) + 1
         if r["r"] in ("panic", "crash"):
             ctx.report_violation(c, f"implementation panicked: {r.get('msg')}")
             continue
@@ -506,8 +579,9 @@ def eval_trees(ctx, cases, stats, with_model=True):
             if (r["r"] == "none") != (want is MISSING) or (want is not MISSING and not jeq(r["v"], want)):
                 ctx.report_violation(c, f"get_at_path({c['path']!r}) = {trunc(r)} but the tree holds {'nothing' if want is MISSING else trunc(want)}")
         # ---- correspondence (ordered: the model keeps IndexMap's insertion order)
-        if model is not None:
-            mo = model[i]
+        if c["id"] in model:
+            mo = model[c["id"]]
+            stats["tree_model_cases"] += 1
             if op == "tree_merge":
                 ok = jeq_ordered(of_coq(mo), r["v"])
             elif op == "tree_set":
@@ -567,6 +641,10 @@ def eval_settings(ctx, cases, stats, with_model=True):
         if r["r"] in ("panic", "crash"):
             ctx.report_violation(c, f"implementation panicked: {r.get('msg')}")
             continue
+        if c.get("shape"):
+            stats["shapes"]["settings_" + c["shape"]] = stats["shapes"].get("settings_" + c["shape"], 0) + 1
+            if all(o["res"] == "ok" for o in r["steps"]):
+                stats["shapes"]["settings_wide_all_steps_ok"] = stats["shapes"].get("settings_wide_all_steps_ok", 0) + 1
         for si, (st, o) in enumerate(zip(c["steps"], r["steps"])):
             k = st["k"]
             stats["steps"][k] = stats["steps"].get(k, 0) + 1
@@ -655,7 +733,7 @@ def sample(c):
 
 
 def new_stats(model_budget):
-    return {"tree_ops": {}, "merge_at_or_past_cutoff": 0, "merge_at_inner_depth": 0, "frame_probes": 0,
+    return {"tree_ops": {}, "tree_model_cases": 0, "shapes": {}, "merge_at_or_past_cutoff": 0, "merge_at_inner_depth": 0, "frame_probes": 0,
             "steps": {}, "results": {}, "errors": {}, "merge_checked": 0, "rejected_typed": 0, "rejected_validate": 0,
             "parse_errors": 0, "read_after_write_exact": 0, "pairs": 0, "pair_doc_mismatch": 0, "toml_emit_mismatch": 0,
             "model_steps": 0, "model_budget": model_budget,
@@ -684,8 +762,14 @@ def run(ctx):
     else:
         cases = corpus()
         ntree, nset = (700, 500) if ctx.quick() else (5000, 3000)
+        nwide, nwset = (70, 40) if ctx.quick() else (500, 250)
         cases += [gen_tree_case(ctx.rng, maxd) for _ in range(ntree)]
+        wide = [gen_wide_tree_case(ctx.rng, maxd) for _ in range(nwide)]
+        for c in wide[(12 if ctx.quick() else 60):]:
+            c["nomodel"] = True
+        cases += wide
         cases += [gen_settings_case(ctx.rng, sl, pem) for _ in range(nset)]
+        cases += [gen_wide_settings_case(ctx.rng, maxd) for _ in range(nwset)]
     for i, c in enumerate(cases):
         c["id"] = i
     trees = [c for c in cases if c["op"].startswith("tree_")]
@@ -703,13 +787,15 @@ def run(ctx):
     ctx.coverage.update({
         "evaluations": len(trees) + sum(len(c["steps"]) for c in sets),
         "distinct_nontrivial": distinct,
-        "rule": "corpus + seeded random value trees (merge at depths 0..MERGE_MAX_DEPTH+1 incl. nests around the limit, set/get on dotted "
-                "paths incl. empty segments) through the guarded hooks, + seeded sequences of Settings updates over the schema read from "
+        "rule": "corpus + seeded random value trees (merge at depths 0..MERGE_MAX_DEPTH+1 incl. nests around the limit, wide objects of "
+                "MERGE_MAX_DEPTH..3*MERGE_MAX_DEPTH members with overlays touching late members, k siblings x d levels with k*d around and beyond "
+                "the limit, set/get on dotted paths incl. empty segments) through the guarded hooks, the same wide shapes through the public API "
+                "in builder.claim_generator_info, + seeded sequences of Settings updates over the schema read from "
                 "Settings::new() (valid/invalid types, nulls, unknown keys, boundary numbers, bad text, unsupported formats, JSON/TOML pairs, "
                 "path/value pairs); non-trivial = a merge/set tree case or a settings case with a non-empty document or a path; distinct by content",
         "distribution": stats,
         "schema_leaves": len(sl),
-        "traces_validated_against_impl": len(trees) + stats["model_steps"],
+        "traces_validated_against_impl": stats["tree_model_cases"] + stats["model_steps"],
         "samples": [sample(c) for c in (trees[:2] + sets[:2])],
     })
 
@@ -722,7 +808,8 @@ def search(ctx):
     sl = list(leaves(default))
     pem = pem_sample()
     stats = new_stats(0)
-    cases = [gen_tree_case(ctx.rng, maxd) for _ in range(6000)] + [gen_settings_case(ctx.rng, sl, pem) for _ in range(3000)]
+    cases = ([gen_tree_case(ctx.rng, maxd) for _ in range(5000)] + [gen_wide_tree_case(ctx.rng, maxd) for _ in range(600)]
+             + [gen_settings_case(ctx.rng, sl, pem) for _ in range(2500)] + [gen_wide_settings_case(ctx.rng, maxd) for _ in range(300)])
     for i, c in enumerate(cases):
         c["id"] = i
     eval_trees(ctx, [c for c in cases if c["op"].startswith("tree_")], stats, with_model=False)
